@@ -796,6 +796,38 @@ fn jl_main(env: &mut Env<VS>, args: Vec<Field>) -> BuiltinFuture<'_> {
     })
 }
 
+/// `mkpipe R W`: creates a pipe whose reading end is descriptor R and writing end W (both kept
+/// open by the calling shell, so a reader of R blocks for ever).
+fn mkpipe_main(env: &mut Env<VS>, args: Vec<Field>) -> BuiltinFuture<'_> {
+    use yash_env::system::{Close, Dup, Pipe};
+    Box::pin(async move {
+        let n = |i: usize, d: i32| args.get(i).and_then(|f| f.value.parse::<i32>().ok()).unwrap_or(d);
+        let (rd, wr) = (Fd(n(0, 8)), Fd(n(1, 9)));
+        let Ok((r, w)) = env.system.pipe() else {
+            return ExitStatus::FAILURE.into();
+        };
+        let _ = env.system.dup2(r, rd);
+        let _ = env.system.dup2(w, wr);
+        if r != rd && r != wr {
+            let _ = env.system.close(r);
+        }
+        if w != wr && w != rd {
+            let _ = env.system.close(w);
+        }
+        ExitStatus::SUCCESS.into()
+    })
+}
+
+/// `stopself`: sends SIGSTOP to the calling process only.
+fn stopself_main(env: &mut Env<VS>, _args: Vec<Field>) -> BuiltinFuture<'_> {
+    use yash_env::system::{GetPid, SendSignal};
+    Box::pin(async move {
+        let pid = env.system.getpid();
+        let _ = env.system.kill(pid, Some(signum(116))).await;
+        ExitStatus::SUCCESS.into()
+    })
+}
+
 /// `hang`: blocks until a signal terminates the process.
 fn hang_main(env: &mut Env<VS>, _args: Vec<Field>) -> BuiltinFuture<'_> {
     Box::pin(async move {
@@ -809,6 +841,8 @@ fn hang_main(env: &mut Env<VS>, _args: Vec<Field>) -> BuiltinFuture<'_> {
 pub fn register_probes(env: &mut Env<VS>) {
     env.builtins.insert("jl", bi(jl_main));
     env.builtins.insert("hang", bi(hang_main));
+    env.builtins.insert("stopself", bi(stopself_main));
+    env.builtins.insert("mkpipe", bi(mkpipe_main));
     env.builtins.insert("echo", bi(echo_main));
     env.builtins.insert("p", bi(p_main));
     env.builtins.insert("s", bi(s_main));
@@ -860,7 +894,13 @@ async fn shell_main(env: &mut Env<VS>, args: Vec<String>, hook: Option<Rc<dyn Fn
             return;
         }
     };
-    let result = read_eval_loop(&ref_env, &mut { lexer }).await;
+    // as yash-cli does: interactive shells recover from interrupts and syntax errors
+    let is_interactive = ref_env.borrow().options.get(yash_env::option::Option::Interactive) == yash_env::option::State::On;
+    let result = if is_interactive {
+        yash_semantics::interactive_read_eval_loop(&ref_env, &mut { lexer }).await
+    } else {
+        read_eval_loop(&ref_env, &mut { lexer }).await
+    };
     let env = ref_env.into_inner();
     env.apply_result(result);
     match result {
@@ -890,6 +930,8 @@ pub struct Setup {
     pub ignored_signals: Vec<i32>,
     pub env_hook: Option<Rc<dyn Fn(&mut Env<VS>)>>,
     pub state_hook: Option<Rc<dyn Fn(&mut SystemState)>>,
+    /// when nothing else can run, an outside actor sends SIGCONT to every stopped process
+    pub auto_continue: bool,
 }
 
 impl Setup {
@@ -1157,6 +1199,7 @@ pub fn run_once(setup: &Setup, opts: &RunOpts) -> Run {
     }
 
     let mut end: Option<End> = None;
+    let mut conts = 0;
     let res = crate::common::catch(|| {
         loop {
             if sched.steps.get() > MAX_STEPS {
@@ -1175,6 +1218,23 @@ pub fn run_once(setup: &Setup, opts: &RunOpts) -> Run {
                     continue;
                 }
                 drop(st);
+                // an outside actor continues stopped processes once everything else is blocked
+                if setup.auto_continue && conts < 20 {
+                    let stopped: Vec<Pid> = state
+                        .borrow()
+                        .processes
+                        .iter()
+                        .filter(|(_, p)| matches!(p.state(), ProcessState::Halted(yash_env::job::ProcessResult::Stopped(_))))
+                        .map(|(pid, _)| *pid)
+                        .collect();
+                    if !stopped.is_empty() {
+                        conts += 1;
+                        for pid in stopped {
+                            raise_on(&state, pid, 103);
+                        }
+                        continue;
+                    }
+                }
                 // the main shell is blocked for ever (processes that outlive an exited main shell
                 // are reported in `Run::alive`, not as a deadlock)
                 let alive = state.borrow().processes.get(&Pid(2)).is_some_and(|p| p.state().is_alive());
